@@ -1,6 +1,6 @@
 GROUPS = [
  dict(name="dict_find", enforce="CODictFind", harness="dict_find.c", tus=["core/co_dict.c"],
-      contracts=["dict.h"], defs=["VW_DICT_FIND_GHOST"], replace=["vw_sorted_inst"],
+      contracts=["dict.h"], defs=["VW_DICT_FIND_GHOST", "VW_DICT_SYMSIZE"], replace=["vw_sorted_inst"],
       loops={"CODictFind.0": "VWL_dict_find"}, reach=["post", "found", "notfound"], nondet_static=True,
       props={"C06": "quick", "C01": "quick", "C04": "thorough"}, timeout=300, cost=20),
 ]
@@ -49,7 +49,7 @@ GROUPS += [
       contracts=["dict.h"], loops={"CODictInit.0": "VWL_dict_init"}, reach=["post", "some", "full"],
       props={"C06": "quick", "C01": "quick"}, timeout=300, cost=10),
  dict(name="dict_objinit", enforce="CODictObjInit", harness="dict_objinit.c", tus=["core/co_dict.c"],
-      contracts=["dict.h"], replace=["COObjInit", "vw_sorted_inst"], loops={"CODictObjInit.0": "VWL_dict_objinit"}, nondet_static=True,
+      contracts=["dict.h"], replace=["COObjInit", "vw_sorted_inst"], loops={"CODictObjInit.0": "VWL_dict_objinit"}, nondet_static=True, defs=["VW_DICT_SYMSIZE"],
       reach=["post", "some"], props={"C06": "quick", "C01": "quick", "C20": "quick"}, timeout=300, cost=10),
 ]
 
